@@ -1214,6 +1214,56 @@ def run_maps():
                         errs.append('.map weights of %s: loaded %r, declared %r' % (res, have, want))
         chk.count('map_' + im + ('_fault' if fault else ''))
         chk.case('map-%d' % i, enc(lines), im, None, errs, len(decl) >= 2 or fault)
+    # ---- new style .mapping files through read_mapping_file (oracle only) ----
+    for i in range(2000 if chk.thorough else 250):
+        lines, decl = [], collections.OrderedDict()
+        fault = rng.random() < 0.15
+        for res in [rng.choice(['ALA', 'GLY', 'LYS']) for _ in range(rng.randint(1, 4))]:
+            lines.append(rng.choice(['[ block ]', '[block]', '[ block ] ; c']))
+            parts = [['[ from ]', 'aa'], ['[ to ]', 'cg']]
+            rng.shuffle(parts)
+            for p in parts:
+                lines += p
+            parts = [['[ from blocks ]', res], ['[ to blocks ]', res]]
+            rng.shuffle(parts)
+            for p in parts:
+                lines += p
+            lines.append('[ mapping ]')
+            m = {}
+            for _ in range(rng.randint(1, 5)):
+                a, b = rng.choice(atoms['aa']), rng.choice(atoms['cg'])
+                w = rng.choice([None, None, 0, 1, 2, 3])
+                lines.append('%s %s%s' % (rng.choice([a, res + ':' + a]), b, '' if w is None else ' %d' % w))
+                m.setdefault(atoms['aa'].index(a), {})[atoms['cg'].index(b)] = 1 if w is None else w
+            decl[(res,)] = m
+        if fault:
+            k = rng.random()
+            if k < 0.4:
+                lines.insert(rng.randint(1, len(lines)), '[ molecule ]')
+                lines.insert(lines.index('[ molecule ]') + 1, 'ALA')
+            elif k < 0.7:
+                lines.append('QQ BB')          # undefined atom in the mapping section
+            else:
+                lines.insert(rng.randint(0, len(lines)), '[ block')
+        errs = []
+        try:
+            out = map_input.read_mapping_file(lines, ffs)
+            im = 'ok'
+        except Exception as e:
+            out, im = None, 'error'
+        if fault:
+            if out is not None:
+                errs.append('malformed .mapping loaded instead of rejected')
+        elif out is None:
+            errs.append('well-formed .mapping rejected')
+        else:
+            got = out.get('aa', {}).get('cg', {})
+            have = [[list(k), {f: dict(t) for f, t in v.mapping.items()}] for k, v in got.items()]
+            want = [[list(k), v] for k, v in decl.items()]
+            if have != want:
+                errs.append('.mapping loaded %r, declared (in order, last wins) %r' % (have, want))
+        chk.count('mapping_' + im + ('_fault' if fault else ''))
+        chk.case('mapping-%d' % i, enc(lines), im, None, errs, len(decl) >= 2 or fault)
     # ---- new style .mapping: real MappingDirector section machine with a recording builder vs the model ----
     class Builder:
         def __init__(self):
